@@ -8,6 +8,7 @@ import (
 	"go/token"
 	"go/types"
 	"math/big"
+	"os"
 	"sort"
 	"strings"
 
@@ -73,6 +74,9 @@ type Exec struct {
 	specDecls    map[string]*FuncDecl
 	bitCache     map[int][]*Term
 	bitLinked    map[int]bool
+	bitTerm      map[int]*Term
+	boundOf      map[int][2]*big.Int
+	boundScanned int
 	expandMemo   map[string]*Term
 	symMemo      map[int]map[string]bool
 	sliceOrigin  map[*Term]*PtrV
@@ -92,9 +96,10 @@ func NewExec(P *Program) *Exec {
 	p := NewPool()
 	ex := &Exec{P: P, p: p, tm: NewTypeMap(p), regionSorts: map[string]*Sort{}, epochMerges: map[int]*epochMerge{},
 		ptrIDs: map[string]*Term{}, ptrByID: map[*Term]*PtrV{}, condClosures: map[*Term][]condClosure{}, oblCount: map[string]int{},
-		assumptions: map[string]bool{}, boxes: map[*Term]boxInfo{}, shiftCache: map[string]*Term{}, specDecls: map[string]*FuncDecl{}, bitCache: map[int][]*Term{}, bitLinked: map[int]bool{}, expandMemo: map[string]*Term{}, symMemo: map[int]map[string]bool{}, sliceOrigin: map[*Term]*PtrV{}, typeIDs: map[string]int{}, inputs: map[string]*Term{}, sentinels: map[string]*Term{}, strLits: map[string]*Term{},
+		assumptions: map[string]bool{}, boxes: map[*Term]boxInfo{}, shiftCache: map[string]*Term{}, specDecls: map[string]*FuncDecl{}, bitCache: map[int][]*Term{}, bitLinked: map[int]bool{}, bitTerm: map[int]*Term{}, boundOf: map[int][2]*big.Int{}, expandMemo: map[string]*Term{}, symMemo: map[int]map[string]bool{}, sliceOrigin: map[*Term]*PtrV{}, typeIDs: map[string]int{}, inputs: map[string]*Term{}, sentinels: map[string]*Term{}, strLits: map[string]*Term{},
 		allocOrder: map[*Term]int{}, bounded: map[*Term]bool{}}
 	p.DistinctFn = ex.distinct
+	ex.tm.Bounds = ex.bounds
 	constArrs := map[string]*Term{}
 	ex.tm.ConstArr = func(s *Sort, v *Term) *Term {
 		k := fmt.Sprintf("%s/%d", s, v.id)
@@ -1118,7 +1123,177 @@ func (ex *Exec) bitsOf(x *Term, t types.Type) []*Term {
 	}
 	ex.facts = append(ex.facts, p.Eq(x, sum))
 	ex.bitCache[x.id] = bs
+	ex.bitTerm[x.id] = x
 	return bs
+}
+
+// ---- intervals: bounds that follow from unguarded facts (type ranges, preconditions), used to drop provably
+// unnecessary wrap-arounds so that terms stay syntactically simple.
+
+func (ex *Exec) scanBoundFacts() {
+	for ; ex.boundScanned < len(ex.facts); ex.boundScanned++ {
+		for _, c := range conjuncts(ex.facts[ex.boundScanned]) {
+			ex.noteBound(c)
+		}
+	}
+}
+
+func (ex *Exec) noteBound(c *Term) {
+	set := func(t *Term, lo, hi *big.Int) {
+		b := ex.boundOf[t.id]
+		if lo != nil && (b[0] == nil || lo.Cmp(b[0]) > 0) {
+			b[0] = lo
+		}
+		if hi != nil && (b[1] == nil || hi.Cmp(b[1]) < 0) {
+			b[1] = hi
+		}
+		ex.boundOf[t.id] = b
+	}
+	one := big.NewInt(1)
+	switch c.Op {
+	case "<=":
+		a, b := c.Args[0], c.Args[1]
+		if a.Op == "int" {
+			set(b, a.Int, nil)
+		} else if b.Op == "int" {
+			set(a, nil, b.Int)
+		}
+	case "<":
+		a, b := c.Args[0], c.Args[1]
+		if a.Op == "int" {
+			set(b, new(big.Int).Add(a.Int, one), nil)
+		} else if b.Op == "int" {
+			set(a, nil, new(big.Int).Sub(b.Int, one))
+		}
+	case "=":
+		a, b := c.Args[0], c.Args[1]
+		if a.Op == "int" {
+			set(b, a.Int, a.Int)
+		} else if b.Op == "int" {
+			set(a, b.Int, b.Int)
+		}
+	}
+}
+
+func (ex *Exec) bounds(t *Term) (*big.Int, *big.Int) {
+	if os.Getenv("GOVC_NOBOUNDS") != "" {
+		return nil, nil
+	}
+	ex.scanBoundFacts()
+	return ex.boundsRec(t, 0)
+}
+
+func (ex *Exec) boundsRec(t *Term, depth int) (lo, hi *big.Int) {
+	if t.Sort.Kind != SInt || depth > 12 {
+		return nil, nil
+	}
+	if t.Op == "int" {
+		return t.Int, t.Int
+	}
+	if b, ok := ex.boundOf[t.id]; ok {
+		lo, hi = b[0], b[1]
+	}
+	tighten := func(l, h *big.Int) {
+		if l != nil && (lo == nil || l.Cmp(lo) > 0) {
+			lo = l
+		}
+		if h != nil && (hi == nil || h.Cmp(hi) < 0) {
+			hi = h
+		}
+	}
+	switch t.Op {
+	case "+":
+		al, ah := ex.boundsRec(t.Args[0], depth+1)
+		bl, bh := ex.boundsRec(t.Args[1], depth+1)
+		var l, h *big.Int
+		if al != nil && bl != nil {
+			l = new(big.Int).Add(al, bl)
+		}
+		if ah != nil && bh != nil {
+			h = new(big.Int).Add(ah, bh)
+		}
+		tighten(l, h)
+	case "-":
+		if len(t.Args) == 2 {
+			al, ah := ex.boundsRec(t.Args[0], depth+1)
+			bl, bh := ex.boundsRec(t.Args[1], depth+1)
+			var l, h *big.Int
+			if al != nil && bh != nil {
+				l = new(big.Int).Sub(al, bh)
+			}
+			if ah != nil && bl != nil {
+				h = new(big.Int).Sub(ah, bl)
+			}
+			tighten(l, h)
+		}
+	case "ite":
+		al, ah := ex.boundsRec(t.Args[1], depth+1)
+		bl, bh := ex.boundsRec(t.Args[2], depth+1)
+		var l, h *big.Int
+		if al != nil && bl != nil {
+			l = al
+			if bl.Cmp(l) < 0 {
+				l = bl
+			}
+		}
+		if ah != nil && bh != nil {
+			h = ah
+			if bh.Cmp(h) > 0 {
+				h = bh
+			}
+		}
+		tighten(l, h)
+	case "mod":
+		if m := t.Args[1]; m.Op == "int" && m.Int.Sign() > 0 {
+			tighten(big.NewInt(0), new(big.Int).Sub(m.Int, big.NewInt(1)))
+		}
+	}
+	return lo, hi
+}
+
+// bitLemmas: valid facts relating the bit Booleans of different blasted terms (uniqueness of the binary
+// representation and the carry chain of +1). They spare the solvers the arithmetic detour through the sums.
+func (ex *Exec) bitLemmas() []*Term {
+	p := ex.p
+	type bt struct {
+		x  *Term
+		bs []*Term
+	}
+	var all []bt
+	var ids []int
+	for id := range ex.bitCache {
+		ids = append(ids, id)
+	}
+	sort.Ints(ids)
+	for _, id := range ids {
+		all = append(all, bt{ex.bitTerm[id], ex.bitCache[id]})
+	}
+	var out []*Term
+	for i := 0; i < len(all); i++ {
+		for j := 0; j < len(all); j++ {
+			if i == j || len(all[i].bs) != len(all[j].bs) {
+				continue
+			}
+			a, b := all[i], all[j]
+			if i < j {
+				var eqs []*Term
+				for h := range a.bs {
+					eqs = append(eqs, p.Eq(a.bs[h], b.bs[h]))
+				}
+				out = append(out, p.Implies(p.Eq(a.x, b.x), p.And(eqs...)))
+			}
+			// a == b + 1
+			var cs []*Term
+			carry := p.True()
+			for h := range a.bs {
+				// a_h = b_h xor carry
+				cs = append(cs, p.Eq(a.bs[h], p.Ite(carry, p.Not(b.bs[h]), b.bs[h])))
+				carry = p.And(carry, b.bs[h])
+			}
+			out = append(out, p.Implies(p.Eq(a.x, p.Add(b.x, p.Int(1))), p.And(cs...)))
+		}
+	}
+	return out
 }
 
 // linkBits: bitAt(x, k) == the k-th bit Boolean of x, for every k (ground facts, once per term).
